@@ -904,12 +904,30 @@ impl Xot {
                             span_info.add(SpanInfoKey::PiContent(node_id.into()), content.into());
                         }
                     }
-                    Declaration { version, .. } => {
+                    Declaration {
+                        version, encoding, ..
+                    } => {
                         if version.as_str() != "1.0" {
                             return Err(ParseError::UnsupportedVersion(
                                 version.to_string(),
                                 version.into(),
                             ));
+                        }
+                        // EncName ::= [A-Za-z] ([A-Za-z0-9._] | '-')*
+                        // (the tokenizer takes any quoted value)
+                        if let Some(encoding) = encoding {
+                            let name = encoding.as_str();
+                            let valid = name.starts_with(|c: char| c.is_ascii_alphabetic())
+                                && name.bytes().all(|c| {
+                                    c.is_ascii_alphanumeric() || matches!(c, b'.' | b'_' | b'-')
+                                });
+                            if !valid {
+                                let pos = tokenizer.stream().gen_text_pos_from(encoding.start());
+                                return Err(ParseError::XmlParser(
+                                    xmlparser::Error::UnknownToken(pos),
+                                    encoding.start(),
+                                ));
+                            }
                         }
                     }
                     DtdStart { span, .. } => {
